@@ -104,3 +104,15 @@ def add_newline_to_expansion(text: str) -> str:
     if isinstance(text, str) and text.startswith(("*", ";", ":", "#", "{|")):
         return "\n" + text
     return text
+
+
+def is_numbered_arg_name(name: str) -> bool:
+    """True if ``name`` names a numbered template argument (it is then used
+    as an integer key): ASCII digits, not zero, and not longer than what
+    int() converts (Python refuses more than 4300 digits with ValueError)."""
+    return (
+        name.isascii()
+        and name.isdigit()
+        and len(name) <= 4300
+        and int(name) > 0
+    )
